@@ -451,6 +451,34 @@ class Gen:
             else: ops.append(op("get", self.target(nv, kinds, 'M'), L_(self.key())))
         return ops
 
+    # ---- C08: a table whose rows are also held elsewhere: operators that rearrange the table must keep the row OBJECTS
+    def shared_rows_history(self):
+        r = self.rng
+        ops = []
+        nrows = r.choice([2, 3, 3, 4])
+        keys = r.sample([1, 2, 3, 5, 8, 13, 21], nrows)
+        for i in range(nrows):    # v0..v3: rows [key, tag]
+            ops.append(op("asg", i, L_(('A', [num(keys[i]), s("r%d" % i)]))))
+        T = 4                     # v4: the table, holding the rows themselves
+        ops.append(op("asg", T, L_(('A', []))))
+        for i in r.sample(range(nrows), nrows):
+            ops.append(op("pb", V_(T), V_(i)))
+        ops.append(op("asg", 5, V_(T)))                       # v5: a second name of the table
+        for _ in range(r.choice([1, 2])):
+            k = r.random()
+            if k < 0.5: ops.append(op("sort", V_(r.choice([T, 5])), r.choice("tf")))
+            elif k < 0.75: ops.append(op("rev", V_(T)))
+            else: ops.append(op("rsz", V_(T), nrows))
+        # now change rows through their own names and through table slots; every holder must see it
+        for _ in range(r.choice([2, 3])):
+            i = r.randrange(nrows)
+            k = r.random()
+            if k < 0.4: ops.append(op("pb", V_(i), L_(s("more"))))
+            elif k < 0.7: ops.append(op("set", V_(i), 1, L_(s("changed%d" % i))))
+            else: ops.append(op("pb", S_(T, r.randrange(nrows)), L_(num(99))))
+        ops.append(op("iseq", V_(T), V_(5)))
+        return ops
+
     # ---- C08: attempts to make a container contain itself, through every inserting operator
     def cycle_history(self, nv=4):
         r = self.rng
